@@ -94,7 +94,12 @@ def circuit_from_qiskit(
             | _three_qubits_gate_quri_parts.keys()
             | _U_gate_qiskit_quri_parts.keys()
         )
-        qiskit_circuit = transpile(qiskit_circuit, basis_gates=allowed_gates)
+        # Only translate the gates: from optimization level 2 on, Qiskit elides
+        # SWAPs and other permutations into a final layout, which is not part
+        # of the converted circuit.
+        qiskit_circuit = transpile(
+            qiskit_circuit, basis_gates=allowed_gates, optimization_level=0
+        )
 
     def qindex(bit: Any) -> int:
         # Position in the whole circuit: the private index attribute of a bit is
